@@ -164,11 +164,22 @@ func build(c *Case) (*world, error) {
 		return nil, fmt.Errorf("prometheus.New: %w", err)
 	}
 	w.mr = sdkmetric.NewManualReader()
-	w.mp = sdkmetric.NewMeterProvider(
+	po := []sdkmetric.Option{
 		sdkmetric.WithReader(exp),
 		sdkmetric.WithReader(w.mr),
 		sdkmetric.WithResource(resource.NewSchemaless(toKVs(c.Resource)...)),
-	)
+	}
+	for i := range c.Insts {
+		if in := &c.Insts[i]; in.ExpSize != 0 && !isObservable(in.Kind) {
+			// a view applies to every reader of the provider: the exporter
+			// and the ManualReader aggregate the instrument the same way
+			po = append(po, sdkmetric.WithView(sdkmetric.NewView(
+				sdkmetric.Instrument{Name: in.Name, Kind: sdkmetric.InstrumentKindHistogram},
+				sdkmetric.Stream{Aggregation: sdkmetric.AggregationBase2ExponentialHistogram{MaxSize: int32(in.ExpSize), MaxScale: int32(in.ExpScale)}},
+			)))
+		}
+	}
+	w.mp = sdkmetric.NewMeterProvider(po...)
 	meters := make([]metric.Meter, len(c.Scopes))
 	for i, s := range c.Scopes {
 		mo := []metric.MeterOption{metric.WithInstrumentationVersion(s.Version)}
@@ -277,6 +288,25 @@ func (w *world) apply(ms []Meas) {
 type checker struct {
 	p  *plan
 	vs []vk.Violation
+	// a data point with a scale below -4 was seen: Prometheus has no schema
+	// for it, the exporter's "invalid native histogram schema" is not held
+	// against it
+	tolerateSchemaErr bool
+}
+
+// handled reports the errors that went to otel.Handle during a scrape.
+func (k *checker) handled(tag string, errs *vk.ErrCapture) {
+	var es []error
+	for _, e := range errs.Errors() {
+		if k.tolerateSchemaErr && e.Error() == "invalid native histogram schema" {
+			continue
+		}
+		es = append(es, e)
+	}
+	errs.Reset()
+	if len(es) > 0 {
+		k.bad("error_handled_during_scrape", "%s: %d errors went to otel.Handle, first: %v", tag, len(es), es[0])
+	}
 }
 
 func (k *checker) bad(kind, format string, a ...any) {
@@ -363,6 +393,7 @@ func (k *checker) constLabels() map[string]string {
 }
 
 type opt struct {
+	upto          int  // measurement rounds applied so far
 	skipSyncGauge bool // the final value of a gauge written by several goroutines is schedule dependent per reader
 }
 
@@ -476,6 +507,33 @@ func (k *checker) exact(tag string, mfs []*dto.MetricFamily, gerr error, rm *met
 			}
 			continue
 		}
+		// exponential histogram points: scale < -4 cannot be shown (nothing
+		// asserted), scale > 8 must be shown at schema 8
+		required, above8 := 0, int32(0)
+		for _, pt := range pts {
+			if pt.exp != nil && pt.exp.unrepresentable() {
+				k.tolerateSchemaErr = true
+				continue
+			}
+			required++
+			if pt.exp != nil && pt.exp.needsDownscale() && above8 >= 0 {
+				above8 = pt.exp.scale
+			} else {
+				above8 = -1
+			}
+		}
+		if in.ExpSize != 0 && !isObservable(in.Kind) && pts[0].exp == nil {
+			k.bad("setup_view_not_applied", "%s: instrument %d %q is not aggregated as an exponential histogram by the SDK", tag, i, clip(in.Name))
+		}
+		if mf == nil && required == 0 {
+			continue
+		}
+		if mf == nil && above8 > 0 {
+			v := vk.V("native_histogram_missing", "%s: instrument %d (%s %q, exponential MaxSize %d MaxScale %d): all its data points have a scale above 8 (e.g. %d) and no family %s is exposed among %v; want them at schema 8", tag, i, in.Kind, clip(in.Name), in.ExpSize, in.ExpScale, above8, strings.Join(quoteAll(ref.cands), " | "), familyNames(mfs))
+			v.Observed = obsExp{Inst: i, Scale: above8}
+			k.vs = append(k.vs, v)
+			continue
+		}
 		if mf == nil {
 			v := vk.V(k.nameKind(in, ref, mfs, claimed), "%s: instrument %d (%s %q unit %q): no family named %s among %v", tag, i, in.Kind, clip(in.Name), in.Unit, strings.Join(quoteAll(ref.cands), " | "), familyNames(mfs))
 			v.Observed = i // the instrument, for the known-finding matcher
@@ -501,7 +559,8 @@ func (k *checker) exact(tag string, mfs []*dto.MetricFamily, gerr error, rm *met
 			}
 			series[lk] = m
 		}
-		if len(mf.GetMetric()) != len(pts) {
+		if len(mf.GetMetric()) > len(pts) {
+			// (missing ones are reported one by one below)
 			k.bad("series_count", "%s: family %q has %d series, the SDK has %d data points", tag, clip(mf.GetName()), len(mf.GetMetric()), len(pts))
 		}
 		for _, pt := range pts {
@@ -514,6 +573,15 @@ func (k *checker) exact(tag string, mfs []*dto.MetricFamily, gerr error, rm *met
 				want[n] = v
 			}
 			m := series[labelKey(want)]
+			if m == nil && pt.exp != nil && pt.exp.unrepresentable() {
+				continue
+			}
+			if m == nil && pt.exp != nil && pt.exp.needsDownscale() {
+				v := vk.V("native_histogram_missing", "%s: family %q: no series with labels %v for the exponential histogram data point %s of scale %d; want it at schema 8; series: %v", tag, clip(mf.GetName()), want, pt.attrs.Encoded(attribute.DefaultEncoder()), pt.exp.scale, seriesLabels(mf))
+				v.Observed = obsExp{Inst: i, Scale: pt.exp.scale}
+				k.vs = append(k.vs, v)
+				continue
+			}
 			if m == nil {
 				k.bad(k.labelKind(want, mf), "%s: family %q: no series with labels %v for data point %s; series: %v", tag, clip(mf.GetName()), want, pt.attrs.Encoded(attribute.DefaultEncoder()), seriesLabels(mf))
 				continue
@@ -532,6 +600,10 @@ func (k *checker) exact(tag string, mfs []*dto.MetricFamily, gerr error, rm *met
 				}
 			case dto.MetricType_HISTOGRAM:
 				h := m.GetHistogram()
+				if pt.exp != nil {
+					k.native(tag, mf.GetName(), want, h, pt, recorded(c, i, pt.attrs, o.upto))
+					continue
+				}
 				k.histShape(tag, mf.GetName(), h)
 				if h.GetSampleCount() != pt.count {
 					k.bad("histogram_count", "%s: %q%v _count = %d, the SDK aggregated %d", tag, clip(mf.GetName()), want, h.GetSampleCount(), pt.count)
@@ -567,6 +639,7 @@ type point struct {
 	count   uint64
 	bounds  []float64
 	buckets []uint64
+	exp     *expPoint // exponential histogram data point
 }
 
 func points(a metricdata.Aggregation) []point {
@@ -595,6 +668,14 @@ func points(a metricdata.Aggregation) []point {
 	case metricdata.Histogram[float64]:
 		for _, dp := range d.DataPoints {
 			out = append(out, point{attrs: dp.Attributes, value: dp.Sum, count: dp.Count, bounds: dp.Bounds, buckets: dp.BucketCounts})
+		}
+	case metricdata.ExponentialHistogram[int64]:
+		for _, dp := range d.DataPoints {
+			out = append(out, point{attrs: dp.Attributes, value: float64(dp.Sum), count: dp.Count, exp: expOf(dp)})
+		}
+	case metricdata.ExponentialHistogram[float64]:
+		for _, dp := range d.DataPoints {
+			out = append(out, point{attrs: dp.Attributes, value: dp.Sum, count: dp.Count, exp: expOf(dp)})
 		}
 	}
 	return out
@@ -748,8 +829,11 @@ func classify(c *Case, p *plan, info *vk.Info) {
 			}
 			san[s] = true
 		}
+		info.ClassIf(in.ExpSize != 0, "exp_histogram_instrument")
+		info.ClassIf(in.ExpSize != 0, fmt.Sprintf("exp_histogram_maxsize_%d_maxscale_%d", in.ExpSize, in.ExpScale))
+		info.ClassIf(in.ExpSize != 0, "exp_histogram_sign_mode_"+[]string{"positive_only", "negative_only", "mixed"}[in.ExpSign%3])
 		info.ClassIf(len(in.Keys) == 0, "instrument_without_attributes")
-		info.ClassIf(c.Legacy && strings.Contains(strings.Join(in.Keys, ","), ":"), "legacy_key_with_colon(open finding)")
+		info.ClassIf(c.Legacy && strings.Contains(strings.Join(in.Keys, ","), ":"), "legacy_key_with_colon(repaired 4beac6c)")
 	}
 	info.ClassIf(collide && c.Legacy, "keys_collide_after_sanitisation(legacy)")
 	info.ClassIf(collide && !c.Legacy, "keys_would_collide_but_utf8")
@@ -799,11 +883,8 @@ func runSeq(c Case) ([]vk.Violation, vk.Info) {
 			k.bad("manual_reader_error", "%s: ManualReader.Collect: %v", tag, cerr)
 			continue
 		}
-		k.exact(tag, mfs, gerr, &rm, opt{})
-		if es := errs.Errors(); len(es) > 0 {
-			k.bad("error_handled_during_scrape", "%s: %d errors went to otel.Handle, first: %v", tag, len(es), es[0])
-			errs.Reset()
-		}
+		k.exact(tag, mfs, gerr, &rm, opt{upto: r + 1})
+		k.handled(tag, errs)
 	}
 	info.ClassIf(len(c.Rounds) > 1, "several_scrapes")
 	return k.vs, info
@@ -918,12 +999,9 @@ func concRun(k *checker, c *Case, rep int, errs *vk.ErrCapture) {
 			if cerr != nil {
 				k.bad("manual_reader_error", "%s: ManualReader.Collect: %v", tag, cerr)
 			} else {
-				k.exact(tag, mfs, gerr, &rm, opt{skipSyncGauge: nw >= 2})
+				k.exact(tag, mfs, gerr, &rm, opt{upto: nw, skipSyncGauge: nw >= 2})
 			}
-			if es := errs.Errors(); len(es) > 0 {
-				k.bad("error_handled_during_scrape", "%s: %d errors went to otel.Handle, first: %v", tag, len(es), es[0])
-				errs.Reset()
-			}
+			k.handled(tag, errs)
 		}
 	}
 }
